@@ -64,8 +64,34 @@ def quiet():
         yield
 
 
-def run_tool(tool, entry, data, a, b, fin, fout, workdir):
+def run_tool(tool, entry, data, a, b, fin, fout, workdir, envcfg=None):
     """convert `data` (codec a, format fin) to codec b / format fout; -> output bytes"""
+    env0 = os.environ.get('CARDUTIL_CONFIG')
+    if envcfg:
+        # a configuration directory in the environment (cardutil.json): the converters must not be disturbed by it,
+        # whether it repeats the packaged configuration or customises it (PAN masking on DE2, another column list)
+        import copy
+        import json
+        from cardutil.config import config as _pkg
+        cfg = copy.deepcopy(_pkg)
+        if envcfg == 'custom':
+            cfg['bit_config']['2']['field_processor'] = 'PAN'
+            cfg['output_data_elements'] = ['MTI', 'DE2']
+        d = os.path.join(workdir, 'cfg_' + envcfg)
+        os.makedirs(d, exist_ok=True)
+        with open(os.path.join(d, 'cardutil.json'), 'w') as f:
+            json.dump(cfg, f)
+        os.environ['CARDUTIL_CONFIG'] = d
+    try:
+        return _run_tool(tool, entry, data, a, b, fin, fout, workdir)
+    finally:
+        if env0 is None:
+            os.environ.pop('CARDUTIL_CONFIG', None)
+        else:
+            os.environ['CARDUTIL_CONFIG'] = env0
+
+
+def _run_tool(tool, entry, data, a, b, fin, fout, workdir):
     from cardutil.cli import mci_ipm_encode, mci_ipm_param_encode, mideu, paramconv
     inp = os.path.join(workdir, 'in.bin')
     outp = os.path.join(workdir, 'out.bin')
@@ -155,10 +181,10 @@ def _check(case, acc, workdir):
         data = param_file(case['nrec'], a, fin, case.get('seed', 0))
     else:
         data = ipm_file(case['seq'], a, fin)
-    acc.case((tool, entry, a, b, fin, fout, repr(case.get('seq')), case.get('nrec')), nontrivial=True,
-             outcome='%s:%s' % (tool, entry))
+    acc.case((tool, entry, a, b, fin, fout, repr(case.get('seq')), case.get('nrec'), case.get('envcfg')),
+             nontrivial=True, outcome='%s:%s' % (tool, entry))
     try:
-        out = run_tool(tool, entry, data, a, b, fin, fout, workdir)
+        out = run_tool(tool, entry, data, a, b, fin, fout, workdir, case.get('envcfg'))
     except (Exception, SystemExit) as ex:      # argparse exits with SystemExit
         acc.viol('c19.%s.%s.exception' % (tool, entry), case, repr(ex), 'a converted file')
         return
@@ -199,8 +225,8 @@ def _check(case, acc, workdir):
             return
     # and back again with the original format: byte-for-byte
     try:
-        back = run_tool(tool, 'func' if tool not in ('mideu',) else 'cli_run', out, b, a, fout, fin, workdir) \
-            if not (tool == 'mideu' and fin != fout) else None
+        back = run_tool(tool, 'func' if tool not in ('mideu',) else 'cli_run', out, b, a, fout, fin, workdir,
+                        case.get('envcfg')) if not (tool == 'mideu' and fin != fout) else None
     except (Exception, SystemExit) as ex:
         acc.viol('c19.%s.return_trip.exception' % tool, case, repr(ex), 'the original file')
         return
@@ -228,6 +254,14 @@ def enumerate_cases(tier, seed):
             for fmt in FORMATS:
                 for e in ('cli_run', 'argv'):
                     cases.append({'tool': 'mideu', 'entry': e, 'a': a, 'b': b, 'fin': fmt, 'fout': fmt, 'seq': seq})
+                    if len(seq) == 1:
+                        for envcfg in ('same', 'custom'):
+                            cases.append({'tool': 'mideu', 'entry': e, 'a': a, 'b': b, 'fin': fmt, 'fout': fmt,
+                                          'seq': seq, 'envcfg': envcfg})
+        if len(seq) == 1:
+            for envcfg in ('same', 'custom'):
+                cases.append({'tool': 'mci_ipm_encode', 'entry': 'cli_run', 'a': 'cp500', 'b': 'latin_1',
+                              'fin': '1014', 'fout': 'vbs', 'seq': seq, 'envcfg': envcfg})
     for nrec in (1, 2, 7, 30):
         for a, b in pairs:
             for fin in FORMATS:
@@ -270,7 +304,8 @@ def describe(tier, seed):
                 '5.9 kB record); parameter inputs of 1/2/7/30 arbitrary-byte records (every byte value occurs). x every '
                 'ordered pair of {latin_1, cp500, cp037} (mideu / paramconv: their fixed cp500<->latin1 pairs) x '
                 '{vbs,1014}^2 x entry points (function with file objects, cli_run on real files, argparse entry with '
-                'argv, with and without -o). Oracle: the output is a finalised file of the requested format; same '
+                'argv, with and without -o), also with CARDUTIL_CONFIG pointing at a configuration directory (repeating or '
+                'customising the packaged configuration). Oracle: the output is a finalised file of the requested format; same '
                 'record count and order; every output record read by the reference decoder under B equals the input '
                 'record read under A (ICC bytes identical); converting back with the original format reproduces the '
                 'original file byte for byte.',
